@@ -37,7 +37,10 @@ EXPLANATION = (
     "`x if x else d`, `if not x: x = d`); R-%(p)s-92 no np.vectorize without otypes (the element type of the result is "
     "taken from the first element); R-%(p)s-93 no state shared between objects or calls (mutable class attribute changed "
     "through an instance, store into an attribute object of a shallow copy, memo keyed by a part of its argument, memoised "
-    "object handed out).")
+    "object handed out); R-%(p)s-94 an optional parameter of the same name has the same default in all public methods of "
+    "a class (cycles(..., failure_probability=0.5) / load(..., failure_probability=0.5)); R-%(p)s-95 a method that accepts an "
+    "option and calls another method of its object accepting the same option passes it on (rtol / tol / failure_probability not "
+    "silently replaced by the callee's default).")
 
 
 def anchored_modules(prog, prop):
@@ -103,6 +106,55 @@ def falsy_numeric(fn_node):
     return out
 
 
+# ------------------------------------------------------------------------------------------------ R-xx-94 / 95
+ACCEPTED_DEFAULTS = {("FiniteLifeCurve", "ignore_limits"): "calc_S / calc_N of the deprecated sn_curve module differ on purpose (documented)"}
+
+
+def _defaults(fnode):
+    a = fnode.args
+    out = {}
+    for p, d in zip(a.args[len(a.args) - len(a.defaults):], a.defaults):
+        out[p.arg] = norm_text(d)
+    for p, d in zip(a.kwonlyargs, a.kw_defaults):
+        if d is not None:
+            out[p.arg] = norm_text(d)
+    return out
+
+
+def sibling_defaults(ci):
+    """[(param, {default text: [method names]})] for optional parameters whose default differs between PUBLIC methods"""
+    by = {}
+    for name, defs in ci.methods.items():
+        if name.startswith("_"):
+            continue
+        for p, d in _defaults(defs[-1].node).items():
+            by.setdefault(p, {}).setdefault(d, []).append(name)
+    return [(p, ds) for p, ds in sorted(by.items()) if len(ds) > 1]
+
+
+def dropped_options(prog, fi):
+    """[(call, callee name, option)]: fi accepts an optional parameter, calls self.<m>(...) where m has an optional parameter of the
+    same name, and does not pass it"""
+    out = []
+    if fi.cls is None:
+        return out
+    mine = _defaults(fi.node)
+    if not mine:
+        return out
+    for c in ast.walk(fi.node):
+        if isinstance(c, ast.Call) and isinstance(c.func, ast.Attribute) and isinstance(c.func.value, ast.Name) and c.func.value.id == "self":
+            callee = prog.lookup_method(fi.cls, c.func.attr)
+            if callee is None or callee.node is fi.node or any(k.arg is None for k in c.keywords) or any(isinstance(a, ast.Starred) for a in c.args):
+                continue
+            theirs = _defaults(callee.node)
+            cp = [p for p in callee.params if p != "self"]
+            passed = {k.arg for k in c.keywords} | set(cp[:len(c.args)])
+            for p in mine:
+                if p in theirs and p not in passed:
+                    out.append((c, c.func.attr, p))
+    return out
+
+
 # ------------------------------------------------------------------------------------------------ R-xx-92
 def vectorize_without_otypes(fn_node):
     out = []
@@ -113,6 +165,8 @@ def vectorize_without_otypes(fn_node):
     return out
 
 
+_EX2 = ("class W:\n    def cycles(self, load, p=None):\n        return self.basq(load)\n    def load(self, cycles, p=0.5):\n        return 1\n"
+        "    def basq(self, x, p=0.5):\n        return x\n")
 _EX = ("def f(nu, M, M2, v):\n    nu = nu or 0.3\n    m = M2 or M / 3\n    k = v if v else 1.0\n    if not nu:\n        nu = 0.3\n"
        "    if nu or M:\n        pass\n    return np.vectorize(lambda x: x)(v), np.vectorize(g, otypes=[float])(v)\n")
 
@@ -125,6 +179,9 @@ def selftest():
     if not tolerance.selfcheck():
         raise AnalysisError("absolute-tolerance helper: built-in example not matched")
     statefam.selftest()
+    p = statefam.mini(_EX2)
+    if len(sibling_defaults(p.classes["ex:W"])) != 1 or len(dropped_options(p, p.functions["ex:W.cycles"])) != 1:
+        raise AnalysisError("common rule families: default / option example not matched")
 
 
 def run(ctx, prop):
@@ -136,7 +193,7 @@ def run(ctx, prop):
     classes = [ci for k, ci in sorted(prog.classes.items()) if ci.module.name in names]
     if not funcs:
         raise AnalysisError("no function found in the anchored modules of %s" % prop)
-    r90, r91, r92, r93 = ("R-%s-%d" % (prop, i) for i in (90, 91, 92, 93))
+    r90, r91, r92, r93, r94, r95 = ("R-%s-%d" % (prop, i) for i in (90, 91, 92, 93, 94, 95))
     # ---- 90
     ctx.rule(r90, floor=1, what="no new absolute tolerance on data in the anchored files")
     n_acc = 0
@@ -190,3 +247,23 @@ def run(ctx, prop):
             ctx.violated(fi, st, "%s writes %s on a shallow copy (%s): the original's attribute object is changed as well" % (fi.qualname, tgt, c),
                          text="write through shallow copy " + tgt, rule=r93)
     ctx.holds(prop + ":anchored files", None, "%d classes, %d functions scanned" % (len(classes), len(funcs)), rule=r93)
+    # ---- 94 / 95
+    ctx.rule(r94, floor=1, what="same-named optional parameters have the same default in the public methods of a class")
+    for ci in classes:
+        for p, ds in sibling_defaults(ci):
+            if (ci.name, p) in ACCEPTED_DEFAULTS:
+                continue
+            minority = min(ds.items(), key=lambda kv: len(kv[1]))
+            fi = ci.methods[minority[1][0]][-1]
+            ctx.violated(fi, fi.node, "%s: the optional parameter `%s` defaults to %s in %s but to %s in %s: calls that leave it out are "
+                         "evaluated at different values, so the methods are no longer inverse / consistent with one another"
+                         % (ci.name, p, minority[0], ", ".join(minority[1]),
+                            " / ".join(d for d in ds if d != minority[0]), ", ".join(m for d, ms in ds.items() if d != minority[0] for m in ms)),
+                         text="default of %s differs in %s" % (p, ci.name), rule=r94)
+    ctx.holds(prop + ":anchored files", None, "%d classes scanned" % len(classes), rule=r94)
+    ctx.rule(r95, floor=1, what="an option accepted by caller and callee is passed on")
+    for fi in funcs:
+        for c, callee, p in dropped_options(prog, fi):
+            ctx.violated(fi, c, "%s accepts `%s` and calls self.%s, which accepts it too, without passing it: the callee works with its "
+                         "own default whatever the caller was given" % (fi.qualname, p, callee), text="option %s dropped in %s" % (p, fi.qualname), rule=r95)
+    ctx.holds(prop + ":anchored files", None, "%d functions scanned" % len(funcs), rule=r95)
